@@ -1,7 +1,7 @@
 (* C08 — Read limit and memory bounds hold for every sender, including compressed input.
-   Statements only; proofs in Proofs/ReaderP.v. *)
+   Statements only; proofs in Proofs/ReaderP.v, Proofs/ReaderCutP.v, Proofs/ReaderLimitZP.v (compressed messages, every inflater). *)
 From Coq Require Import List NArith ZArith Bool.
-From WS Require Import Base.Words Gen.Consts Model.Mask Model.Frame Model.Proto Model.RefDecoder Model.Reader Model.Script Proofs.ReaderP Proofs.ReaderCutP.
+From WS Require Import Base.Words Gen.Consts Model.Mask Model.Frame Model.Proto Model.RefDecoder Model.Reader Model.Script Model.ScriptZ Proofs.ReaderP Proofs.ReaderCutP Proofs.ReaderLimitZP.
 Import ListNotations.
 Open Scope N_scope.
 
@@ -54,3 +54,27 @@ Example C08_over_and_within :
   fst r4 = [ObReader (inl 2); ObMsg [1; 2; 3; 4] (Some RELimit)] /\ r_replies (snd r4) = [RpClose 1009 None] /\
   fst r3 = [ObReader (inl 2); ObMsg [1; 2; 3] None].
 Proof. vm_compute. repeat split. Qed.
+
+
+(* ---- the limit counts DECOMPRESSED bytes: compression bombs, for EVERY inflater ----
+   With a read limit of L bytes on a connection with permessage-deflate, for every valid stream (compressed and uncompressed
+   messages mixed, any fragmentation, control frames, both roles, both takeover settings) and positive buffer sizes: (a) if what
+   every message decompresses to is at most L bytes, everything is delivered as without a limit; (b) the first message whose
+   decompressed size exceeds L — however small it is on the wire — is never reported complete: the application receives exactly
+   the first L+1 bytes of its output, the read fails with the limit error and a Close frame with status 1009 is written. *)
+Theorem C08_limit_stream_compressed : forall cfg inflate co ms sizes e (L : nat),
+  rc_co cfg = Some co -> Forall (fun zm => wf_smsg (zm_m zm)) ms ->
+  all_inflate_ok inflate (reader_takeover (rc_role cfg) co) [] ms = true ->
+  length sizes = length ms -> Forall (fun n => 0 < n)%nat sizes ->
+  let tk := reader_takeover (rc_role cfg) co in
+  let masked := role_eqb (rc_role cfg) Server in
+  let r := run cfg inflate (Z.of_nat L + 1)%Z (enc_zscript masked ms) e (read_ops sizes) in
+  (Forall (fun o => length o <= L)%nat (zouts inflate tk [] ms) -> fst r = expected_zobs inflate tk [] ms) /\
+  (forall pre zm post, ms = pre ++ zm :: post ->
+     Forall (fun o => length o <= L)%nat (zouts inflate tk [] pre) ->
+     let out := zout inflate (dict_after inflate tk [] pre) zm in
+     (L < length out)%nat ->
+     fst r = expected_zobs inflate tk [] pre ++ [ObReader (inl (sm_typ (zm_m zm))); ObMsg (firstn (S L) out) (Some RELimit)] /\
+     exists rs, r_replies (snd r) = rs ++ [RpClose c_StatusMessageTooBig None]).
+Proof. exact reader_limit_zstream. Qed.
+Print Assumptions C08_limit_stream_compressed.
